@@ -357,3 +357,327 @@ func init() {
 		})
 	})
 }
+
+// ---------------------------------------------------------------- C19: catalogue agreement
+
+type dsVariant struct {
+	PublicNamespaces []string
+	Proxy            *ProxyDatasetConfig
+}
+
+func vDsVariant(n int) *CreateDatasetConfig {
+	switch n {
+	case 1:
+		return &CreateDatasetConfig{PublicNamespaces: []string{"http://data.mimiro.io/core/dataset/", VNamespace}}
+	case 2:
+		return &CreateDatasetConfig{ProxyDatasetConfig: &ProxyDatasetConfig{RemoteURL: "http://remote.example/datasets/x", AuthProviderName: "prov", TimeoutSeconds: 7}}
+	}
+	return nil
+}
+
+// checkCatalogue is the C19 oracle: dataset list = live meta-entities = datasets that answer;
+// settings carried; items = distinct ids ever stored.
+func (c *VCheck) checkCatalogue(allNames []string, variants map[string]int, pubNs map[string][]string) {
+	h := c.H
+	c.Checks++
+	info, err := h.W.Store.NamespaceManager.GetDatasetNamespaceInfo()
+	if err != nil {
+		c.fail("C19:nsinfo", err.Error(), nil)
+		return
+	}
+	core := h.W.Dsm.GetDataset(datasetCore)
+	// live meta-entities of this history
+	liveMeta := map[string]*Entity{}
+	deadMeta := map[string]bool{}
+	_, err = core.MapEntities("", -1, func(e *Entity) error {
+		local := e.ID[strings.Index(e.ID, ":")+1:]
+		if !strings.HasSuffix(local, "."+h.Tag) {
+			return nil
+		}
+		n := h.AbsDs(local)
+		if e.IsDeleted {
+			deadMeta[n] = true
+		} else {
+			if _, dup := liveMeta[n]; dup {
+				c.fail("C19:meta-twice:"+n, "two live meta-entities for dataset "+n, nil)
+			}
+			liveMeta[n] = e
+		}
+		return nil
+	})
+	if err != nil {
+		c.fail("C19:core-list", err.Error(), nil)
+		return
+	}
+	listed := map[string]bool{}
+	for _, n := range h.W.Dsm.GetDatasetNames() {
+		if strings.HasSuffix(n.Name, "."+h.Tag) {
+			listed[h.AbsDs(n.Name)] = true
+		}
+	}
+	for _, n := range allNames {
+		md, exists := h.M.Datasets[n]
+		if listed[n] != exists {
+			c.fail("C19:list:"+n, fmt.Sprintf("dataset %s listed=%v but exists=%v", n, listed[n], exists), nil)
+		}
+		meta, hasMeta := liveMeta[n]
+		if exists != hasMeta {
+			c.fail("C19:meta-live:"+n, fmt.Sprintf("dataset %s exists=%v but has a live meta-entity in core.Dataset=%v (deleted meta-entity present=%v)", n, exists, hasMeta, deadMeta[n]), nil)
+			continue
+		}
+		if !exists {
+			continue
+		}
+		ds := h.W.Dsm.GetDataset(h.DsName(n))
+		if ds == nil {
+			continue
+		}
+		if name, _ := meta.Properties[info.NameKey].(string); name != h.DsName(n) {
+			c.fail("C19:meta-name:"+n, fmt.Sprintf("meta-entity of %s carries name %q", n, name), nil)
+		}
+		// items
+		items := int64(-1)
+		switch v := meta.Properties[info.ItemsKey].(type) {
+		case float64:
+			items = int64(v)
+		case int64:
+			items = v
+		case int:
+			items = int64(v)
+		}
+		if items != int64(md.DistinctIDs()) {
+			c.fail("C19:items:"+n, fmt.Sprintf("meta-entity of %s says items=%d, %d distinct ids were stored in it", n, items, md.DistinctIDs()), nil)
+		}
+		// settings
+		wantNs := pubNs[n]
+		gotNs := []string{}
+		if l, ok := meta.Properties[info.PublicNamespacesKey].([]interface{}); ok {
+			for _, x := range l {
+				gotNs = append(gotNs, fmt.Sprint(x))
+			}
+		}
+		if strings.Join(gotNs, ",") != strings.Join(wantNs, ",") {
+			c.fail("C19:meta-publicNamespaces:"+n, fmt.Sprintf("meta-entity of %s has publicNamespaces %v, want %v", n, gotNs, wantNs), nil)
+		}
+		if strings.Join(ds.PublicNamespaces, ",") != strings.Join(wantNs, ",") {
+			c.fail("C19:dataset-publicNamespaces:"+n, fmt.Sprintf("dataset %s has publicNamespaces %v, want %v", n, ds.PublicNamespaces, wantNs), nil)
+		}
+		if variants[n] == 2 {
+			if u, _ := meta.Properties[info.DatasetPrefix+":remoteUrl"].(string); u != "http://remote.example/datasets/x" || ds.ProxyConfig == nil || ds.ProxyConfig.RemoteURL != u {
+				c.fail("C19:meta-proxy:"+n, fmt.Sprintf("proxy settings of %s not carried (meta remoteUrl=%q, dataset proxy config=%v)", n, u, ds.ProxyConfig), nil)
+			}
+		} else if ds.ProxyConfig != nil && ds.ProxyConfig.RemoteURL != "" {
+			c.fail("C19:meta-proxy-phantom:"+n, "dataset "+n+" has a proxy config it was not created with", nil)
+		}
+		// details API agrees
+		det, found, err := h.W.Dsm.GetDatasetDetails(h.DsName(n))
+		if err != nil || !found || det.ID != meta.ID {
+			c.fail("C19:details:"+n, fmt.Sprintf("GetDatasetDetails(%s) found=%v err=%v", n, found, err), nil)
+		}
+	}
+	// core.Dataset is itself an existing dataset with a meta-entity
+	if meta, err := h.W.Store.GetEntity(info.DatasetPrefix+":"+datasetCore, []string{datasetCore}, true); err == nil && meta != nil && !meta.IsDeleted {
+		n := 0
+		_, _ = core.MapEntitiesRaw("", -1, func([]byte) error { n++; return nil })
+		items := int64(-1)
+		if v, ok := meta.Properties[info.ItemsKey].(float64); ok {
+			items = int64(v)
+		}
+		if items != int64(n) {
+			c.fail("C19:items-of-core.Dataset", fmt.Sprintf("the meta-entity of core.Dataset says items=%d, core.Dataset holds %d distinct ids", items, n), nil)
+		}
+	} else {
+		c.fail("C19:meta-of-core.Dataset", "core.Dataset has no live meta-entity", nil)
+	}
+	for n := range liveMeta {
+		known := false
+		for _, k := range allNames {
+			if k == n {
+				known = true
+			}
+		}
+		if !known {
+			c.fail("C19:meta-unknown:"+n, "live meta-entity for a dataset name that was never created: "+n, nil)
+		}
+	}
+}
+
+// VReplayCat replays a catalogue history (C19).
+func VReplayCat(task engine.SeqTask) (res engine.SeqResult) {
+	defer func() {
+		if r := recover(); r != nil {
+			res.Viol = append(res.Viol, engine.Violation{Key: "panic|" + fmt.Sprint(r), What: fmt.Sprintf("panic while replaying history: %v", r)})
+			vWorkerWorld = nil
+		}
+	}()
+	vWorldMaxHists = 150
+	w := vWorld()
+	h := w.NewHist()
+	allNames := []string{"A", "B"}
+	variants := map[string]int{}
+	pubNs := map[string][]string{}
+	chk := &VCheck{H: h}
+	var keyParts []string
+	for i, raw := range task.Hist {
+		var op VOp
+		_ = json.Unmarshal(raw, &op)
+		last := i == len(task.Hist)-1
+		if last {
+			chk.Last = op.String()
+		}
+		_, exists := h.M.Datasets[op.DS]
+		switch op.K {
+		case "create":
+			if exists {
+				res.Skip, res.Key = true, "skip"
+				return
+			}
+			cfg := vDsVariant(op.N)
+			if _, err := w.Dsm.CreateDataset(h.DsName(op.DS), cfg); err != nil {
+				chk.fail("C19:create-rejected", err.Error(), nil)
+			}
+			h.M.Create(op.DS)
+			variants[op.DS] = op.N
+			pubNs[op.DS] = nil
+			if cfg != nil {
+				pubNs[op.DS] = cfg.PublicNamespaces
+			}
+		case "delete":
+			if !exists {
+				res.Skip, res.Key = true, "skip"
+				return
+			}
+			if err := w.Dsm.DeleteDataset(h.DsName(op.DS)); err != nil {
+				chk.fail("C19:delete-rejected", err.Error(), nil)
+			}
+			h.M.Delete(op.DS)
+		case "rename":
+			_, toExists := h.M.Datasets[op.To]
+			if !exists || toExists {
+				res.Skip, res.Key = true, "skip"
+				return
+			}
+			if _, err := w.Dsm.UpdateDataset(h.DsName(op.DS), &UpdateDatasetConfig{ID: h.DsName(op.To)}); err != nil {
+				chk.fail("C19:rename-rejected", err.Error(), nil)
+			}
+			h.M.Rename(op.DS, op.To)
+			variants[op.To], pubNs[op.To] = variants[op.DS], pubNs[op.DS]
+		case "batch", "txn":
+			ok := true
+			if op.K == "batch" && !exists {
+				ok = false
+			}
+			for n := range op.Parts {
+				if _, e := h.M.Datasets[n]; !e {
+					ok = false
+				}
+			}
+			if !ok {
+				res.Skip, res.Key = true, "skip"
+				return
+			}
+			if _, err := h.applyWriteT(op); err != nil {
+				chk.fail("C19:write-rejected", err.Error(), nil)
+			}
+		case "setns": // write the meta-entity with new public namespaces into core.Dataset (the documented way to change them)
+			if !exists {
+				res.Skip, res.Key = true, "skip"
+				return
+			}
+			info, _ := w.Store.NamespaceManager.GetDatasetNamespaceInfo()
+			meta, err := w.Store.GetEntity(info.DatasetPrefix+":"+h.DsName(op.DS), []string{datasetCore}, true)
+			if err != nil || meta == nil {
+				chk.fail("C19:setns-nometa", fmt.Sprintf("meta-entity of %s not found: %v", op.DS, err), nil)
+				break
+			}
+			ns := []string{"http://pub" + fmt.Sprint(op.N) + ".example/"}
+			meta.Properties[info.PublicNamespacesKey] = ns
+			if err := w.Dsm.GetDataset(datasetCore).StoreEntities([]*Entity{meta}); err != nil {
+				chk.fail("C19:setns-rejected", err.Error(), nil)
+			}
+			pubNs[op.DS] = ns
+		case "restart":
+			w.Restart()
+		}
+		keyParts = append(keyParts, "")
+	}
+	chk.checkCatalogue(allNames, variants, pubNs)
+	// canonical key: per live dataset: variant, public namespaces, canon of its content
+	var parts []string
+	for _, d := range h.M.LiveInOrder() {
+		parts = append(parts, fmt.Sprintf("%s:v%d:%v:%d", d.Name, variants[d.Name], pubNs[d.Name], d.DistinctIDs()))
+	}
+	sort.Strings(parts)
+	dead := 0
+	for _, d := range h.M.Dead {
+		dead += len(d.Name) * 0
+		dead++
+	}
+	res.Key = h.Canon(append(append([]string{}, vIDs...), "e4"), vLiveNames(h), strings.Join(parts, ";")+fmt.Sprintf("|dead%d", dead))
+	res.Viol = chk.Viol
+	res.Checks = chk.Checks
+	res.Outcome = res.Key[:8]
+	return
+}
+
+func init() {
+	engine.RegisterWorker("cat", func(args []string) {
+		defer func() {
+			if vWorkerWorld != nil {
+				vWorkerWorld.Destroy()
+			}
+		}()
+		engine.ServeWorker(func(task []byte) interface{} {
+			var t engine.SeqTask
+			if err := json.Unmarshal(task, &t); err != nil {
+				return engine.SeqResult{HarnessEr: err.Error()}
+			}
+			return VReplayCat(t)
+		})
+	})
+	engine.RegisterCheck("C19", func(r *engine.Run) {
+		r.Rule = "SEQ: every sequence up to the stated depth over {create (plain / public namespaces / proxy), delete, rename, re-create, batches and transactions with repeated, re-stored and globally-known ids, meta-entity update of public namespaces, restart}; after every history the dataset list, the meta-entities in core.Dataset (exactly one live per existing dataset, only deleted ones for removed names, name and settings carried, items = distinct ids ever stored per the reference model) and GetDatasetDetails are compared. SCHED: concurrent writers whose counter updates funnel through core.Dataset, final catalogue compared"
+		r.Assumptions = []string{"badger transactions are linearizable", "all observation points are quiescent"}
+		pool := model.Pool(0)
+		pi := func(n string) int { return model.PoolIndex(pool, n) }
+		alpha := []VOp{
+			{K: "create", DS: "A"}, {K: "create", DS: "A", N: 1}, {K: "create", DS: "B", N: 2}, {K: "create", DS: "B"},
+			{K: "delete", DS: "A"}, {K: "delete", DS: "B"}, {K: "rename", DS: "A", To: "B"},
+			{K: "batch", DS: "A", Ents: []VEnt{{"e1", pi("v1")}}},
+			{K: "batch", DS: "A", Ents: []VEnt{{"e1", pi("v2")}, {"e2", pi("r1")}, {"e1", pi("dv1")}}},
+			{K: "batch", DS: "B", Ents: []VEnt{{"e1", pi("v1")}, {"e1", pi("v1")}}},
+			{K: "txn", Parts: map[string][]VEnt{"A": {{"e2", pi("v1")}, {"e3", pi("v1")}}, "B": {{"e2", pi("v2")}}}},
+			{K: "setns", DS: "A", N: 1}, {K: "setns", DS: "B", N: 2},
+			{K: "restart"},
+		}
+		depth, budget := 5, 150
+		if !r.Quick() {
+			depth, budget = 7, 2400
+		}
+		engine.RunSeq(r, engine.SeqSpec{Name: "c19-seq", WorkerArgs: []string{"worker", "cat"}, Alphabet: vOpsJSON(alpha), Depth: depth, Budget: secs(budget)})
+		b := func(ds string, es ...VEnt) VOp { return VOp{K: "batch", DS: ds, Ents: es} }
+		e := func(id, c string) VEnt { return VEnt{ID: id, C: pi(c)} }
+		scs := []SchedScenario{
+			{Name: "K1-writers-to-different-datasets", Datasets: vDS, IDs: vIDs, Oracle: "cat",
+				Threads: [][]VOp{{b("A", e("e1", "v1"), e("e2", "v1"))}, {b("B", e("e1", "v2"), e("e3", "v2"))}}},
+			{Name: "K2-batch-vs-transaction", Datasets: vDS, IDs: vIDs, Oracle: "cat", Pre: []VOp{b("A", e("e1", "v1"))},
+				Threads: [][]VOp{{b("A", e("e2", "v1"))}, {{K: "txn", Parts: map[string][]VEnt{"A": {e("e3", "v1")}, "B": {e("e1", "v2")}}}}}},
+			{Name: "K3-batch-vs-rename", Datasets: []string{"A"}, IDs: vIDs, Oracle: "cat", Pre: []VOp{b("A", e("e1", "v1"))}, MapPoints: true,
+				Threads: [][]VOp{{b("A", e("e2", "v1"))}, {{K: "rename", DS: "A", To: "B"}}}},
+			{Name: "K4-three-writers", Datasets: vDS, IDs: vIDs, Oracle: "cat",
+				Threads: [][]VOp{{b("A", e("e1", "v1"))}, {b("B", e("e1", "v2"))}, {b("A", e("e2", "v1"))}}},
+		}
+		for _, sc := range scs {
+			bound := 2
+			if len(sc.Threads) > 2 {
+				bound = 1
+			}
+			bs := 60
+			if !r.Quick() {
+				bound++
+				bs = 600
+			}
+			engine.RunSched(r, engine.SchedSpec{Name: sc.Name, WorkerArgs: []string{"worker", "sched-store"}, Scenario: sc, Bound: bound, Horizon: 1500, BudgetS: bs})
+		}
+	})
+}
